@@ -180,6 +180,31 @@ def known_sig(t, l, clause):
         o = t['steps'][l - 1]['obs']
         unfinished = [x['sid'] for x in o['tk'] if x['state'] in ('RUNNING', 'WAITING', 'IDLE', 'DELAYED')]
         out['unfinished_tasks_are_rearmed_joins'] = bool(unfinished) and all(u in arm for u in unfinished)
+    if clause == 'Prescribed':
+        # the execution had been failed by a `fail` command (not by the completion check) before a task of it was rerun / skipped
+        k_rr = [k for k, st in enumerate(t['steps'][:l]) if st['ev']['kind'] == 'op' and st['ev']['what'] == 'rerun' and st['ev']['exc'] == 'none']
+        by_cmd = False
+        if k_rr:
+            for st in t['steps'][:k_rr[0]]:
+                if st['ev']['kind'] != 'ptq' and any(wr['kind'] == 'wf' and wr['sid'] == 'r' and wr['frm'] == 'RUNNING' and wr['to'] == 'ERROR'
+                                                     for wr in st['ev'].get('writes', [])):
+                    by_cmd = any(e.get('to') == 'fail' for d_ in t['prog']['tasks'].values() for kk in ('succ', 'err', 'comp') for e in d_[kk])
+        out['wf_failed_by_command_before_rerun'] = by_cmd
+        # a task whose fired transitions contain fail / succeed completed while the execution was PAUSED: the command takes
+        # effect only at resume, and whatever resolves in between (a join that fails, another branch) differs from the unpaused run
+        delayed = False
+        for k, st in enumerate(t['steps'][:l]):
+            if k == 0:
+                continue
+            prevwf = [w['state'] for w in t['steps'][k - 1]['obs']['wf'] if w['sid'] == 'r']
+            if prevwf and prevwf[0] == 'PAUSED':
+                for wr in st['ev'].get('writes', []):
+                    if wr['kind'] == 'tk' and wr['to'] in ('SUCCESS', 'ERROR') and wr['sid'].startswith('r/') and wr['sid'].count('/') == 1:
+                        d_ = t['prog']['tasks'].get(wr['sid'].split('/')[-1].split('#')[0], {})
+                        cl = (d_.get('err', []) if wr['to'] == 'ERROR' else d_.get('succ', [])) + d_.get('comp', [])
+                        if any(e.get('fires') and e.get('to') in ('fail', 'succeed') for e in cl):
+                            delayed = True
+        out['terminating_command_delayed_by_pause'] = delayed
     if clause == 'PauseBeforeRespected':
         # which pause-before tasks started an action / sub-workflow without a PAUSED period followed by a resume ?
         born, first_kid = {}, {}
